@@ -46,13 +46,15 @@ def main():
     r = runner.explore("harness.fam_diff", fam_diff.shards(t, (PROP,), kn), nproc=common.nproc(),
                        budget_s=400 if t == "quick" else 3000)
     chk.add("generic-diff-patch", r)
-    r = runner.explore("harness.fam_nbdiff", fam_nbdiff.shards(t, (PROP,), kn, files=0),
+    r = runner.explore("harness.fam_nbdiff", fam_nbdiff.shards(t, (PROP,), kn, files=0, lite=True),
                        nproc=common.nproc(), budget_s=400 if t == "quick" else 3000)
     chk.add("notebook-diff-patch", r)
     r = runner.explore("harness.fam_merge", fam_merge.triple_shards(t, (PROP,), kn),
                        nproc=common.nproc(), budget_s=300 if t == "quick" else 2400)
     chk.add("generic-merge", r)
-    sh = F.default_shards(t, (PROP,), kn, tools=("git",)) + F.strategy_shards(t, (PROP,), kn, tools=("git",))
+    sh = F.default_shards(t, (PROP,), kn, tools=("git",))
+    st = F.strategy_shards(t, (PROP,), kn, tools=("git",))
+    sh += st if t == "thorough" else st[::2]
     r = runner.explore("harness.fam_nbmerge", sh, nproc=common.nproc(), budget_s=400 if t == "quick" else 3000)
     chk.add("notebook-merge", r)
     try:
